@@ -454,3 +454,99 @@ def callee_ends(*suffixes):
         o = norm(t.get("orig") or "")
         return any(c.endswith(s) or o.endswith(s) for s in suffixes)
     return p
+
+
+def bool_branch(body, cfg, du, def_local, start_blocks):
+    """Find the switch that tests the boolean `def_local` (directly or through `Not`) among the blocks reachable from
+    start_blocks. Returns (true_bb, false_bb, switch_bid) or None."""
+    aliases = {def_local: False}   # local -> negated?
+    for x in sorted(cfg.reachable(set(start_blocks))):
+        blk = body.blocks[x]
+        for s in blk["stmts"]:
+            if s["k"] == "assign" and not s["lhs"]["proj"]:
+                rv = s["rhs"]
+                if rv["k"] == "unop" and rv["op"] == "Not" and op_local(rv["a"]) in aliases and not rv["a"]["p"]["proj"]:
+                    aliases[s["lhs"]["l"]] = not aliases[op_local(rv["a"])]
+                elif rv["k"] == "use" and op_local(rv["a"]) in aliases and not rv["a"]["p"]["proj"]:
+                    aliases[s["lhs"]["l"]] = aliases[op_local(rv["a"])]
+        t = blk["term"]
+        if t["k"] == "switch" and op_local(t["discr"]) in aliases and not t["discr"]["p"]["proj"]:
+            neg = aliases[op_local(t["discr"])]
+            zero = [bb for v, bb in t["targets"] if int(v) == 0]
+            one = [bb for v, bb in t["targets"] if int(v) == 1]
+            f_bb = zero[0] if zero else t["otherwise"]
+            t_bb = one[0] if one else t["otherwise"]
+            if neg:
+                t_bb, f_bb = f_bb, t_bb
+            return (t_bb, f_bb, x)
+    return None
+
+
+def variant_arms(body, cfg, du, def_local, start_blocks):
+    """Find the switch on discriminant(def_local) reachable from start_blocks; returns (arms{name->bb}, switch_bid, info) or None."""
+    for x in sorted(cfg.reachable(set(start_blocks))):
+        if body.blocks[x]["term"]["k"] == "switch":
+            si = switch_info(body, du, x)
+            if si["kind"] == "discr" and si["place"]["l"] == def_local and not si["place"]["proj"]:
+                arms = dict(si["arms"])
+                t = body.blocks[x]["term"]
+                if t["otherwise"] not in arms.values() and body.blocks[t["otherwise"]]["term"]["k"] != "unreachable":
+                    for r in si.get("rest") or []:
+                        arms.setdefault(r, t["otherwise"])
+                return (arms, x, si)
+    return None
+
+
+def static_of(body, du, op, depth=8):
+    """Static whose (Lazy) contents an operand refers to, following refs/deref calls."""
+    seen = 0
+    while op is not None and seen < depth:
+        seen += 1
+        if op["k"] == "const":
+            return norm(op.get("static")) if op.get("static") else None
+        l = op["p"]["l"]
+        ds = du.defs.get(l, [])
+        nxt = None
+        for (_b, _i, kind, s) in ds:
+            if kind == "assign":
+                rv = s["rhs"]
+                if rv["k"] in ("ref", "rawptr"):
+                    nxt = {"k": "copy", "p": rv["p"]}
+                elif rv["k"] in ("use", "cast"):
+                    nxt = rv["a"]
+                elif rv["k"] == "tlsref":
+                    return norm(rv["static"])
+            elif kind == "call" and s["args"]:
+                nxt = s["args"][0]
+        op = nxt
+    return None
+
+
+def field_chain(body, du, op, depth=8):
+    """Field names on the receiver chain of an operand (outermost last), e.g. &self.pool.results -> ['pool','results']."""
+    out = []
+    seen = 0
+    while op is not None and seen < depth:
+        seen += 1
+        if op["k"] == "const":
+            break
+        p = op["p"]
+        fs = [e["f"] for e in p["proj"] if isinstance(e, dict) and "f" in e]
+        out = fs + out
+        l = p["l"]
+        if 1 <= l <= body.argc:
+            out = [body.name_of(l)] + out
+            break
+        ds = du.defs.get(l, [])
+        nxt = None
+        for (_b, _i, kind, s) in ds:
+            if kind == "assign":
+                rv = s["rhs"]
+                if rv["k"] in ("ref", "rawptr"):
+                    nxt = {"k": "copy", "p": rv["p"]}
+                elif rv["k"] in ("use", "cast"):
+                    nxt = rv["a"]
+            elif kind == "call" and s["args"] and is_pass_through(s):
+                nxt = s["args"][0]
+        op = nxt
+    return out
